@@ -4,7 +4,10 @@ ExcitationLine / RecombinationLine / ThermalCXLine / TotalRadiatedPower / Bremss
 (plasma=, atomic_data= constructor arguments) on a real Plasma with 1-6 Species and called directly:
 model.emission(point, direction, Spectrum).  The atomic data are the parameterised mocks of vf/mocks.py, so every
 rate is a different smooth function per (element, charge, transition, donor, ...) and of all its arguments; the
-oracle evaluates the documented formula in plain Python from the same functions and the generated point values."""
+oracle evaluates the documented formula in plain Python from the same functions and the generated point values.
+Every model INSTANCE is evaluated at a generated sequence of 2-4 points with different plasma states (a species present at
+one point and absent at the next, and the reverse) and finally at the first point again: the emission at a point must not
+depend on what was evaluated before."""
 import math
 
 import numpy as np
@@ -21,23 +24,23 @@ from cherab.core.model import ExcitationLine, RecombinationLine, ThermalCXLine, 
     GaussianLine, MultipletLineShape, ZeemanTriplet, ParametrisedZeemanTriplet, ZeemanMultiplet
 
 from ..core import Given
-from ..findings import is_open
 from .. import mocks as M
 
 ID = "C03"
 RULE = ("Case = model kind x composition of 1-6 distinct species from {H, D, T, He, C, Ne} x charge 0..Z (neutrals, bare nuclei, "
         "isotopes; species a wrong selection rule would pick are added on purpose) x per-species density / temperature / flow "
-        "at the evaluation point (densities and temperatures log-uniform, 10 % zero, 10 % negative, electrons 6 % each; linear profiles around the "
-        "point so the value is exact there and different elsewhere) x n_e, T_e (same) x mock provider (tag, seed, kinds with "
+        "at each of 2-4 generated evaluation points (densities and temperatures log-uniform, 10 % zero, 10 % negative, electrons 6 % each, "
+        "drawn independently per point, in half of the cases one species is forced present at one point and absent at the next; profiles are "
+        "Voronoi tables around the points with a linear tilt, so the value is exact at each point and different elsewhere) x n_e, T_e (same) x mock provider (tag, seed, kinds with "
         "zero coefficient) x line (element, charge, transition) x line-shape class (default, Gaussian, multiplet, Zeeman triplet, "
         "parametrised triplet, Zeeman multiplet) x spectral window / bins x pre-filled spectrum x Gaunt source (provider mock, "
-        "provider Maxwellian table, user supplied). Oracle = documented formula in plain Python. Non-trivial = emission > 0 and "
+        "provider Maxwellian table, user supplied). The same model instance is evaluated at the points in order (plus the pre-filled-spectrum "
+        "calls) and then at the first point again, which must reproduce the first result bit for bit. Oracle = documented formula in plain "
+        "Python, per point. Non-trivial = at some point emission > 0 and "
         "the composition contains, with positive density, a species the formula must exclude or treat specially: lines - another "
         "charge state / isotope of the line's element (exc, rec) or a bare nucleus other than the receiver or a non-bare receiver "
         "(thermal CX); total radiated power - a hydrogen isotope (neutral: summed into n_hyd, ion: not); bremsstrahlung - a "
-        "neutral (excluded from the ion sum) or a charged species with non-positive density (skipped). Distinct by case hash. "
-        "While the known finding C03-tcx-donor-guards is open, thermal-CX donors with negative density or non-positive temperature "
-        "are replaced by their absolute values (label excluded_known) so that the search continues behind it.")
+        "neutral (excluded from the ion sum) or a charged species with non-positive density (skipped). Distinct by case hash.")
 ASSUMPTIONS = ["the mock rate functions (vf/mocks.py) are evaluated identically by the model (through cpdef dispatch) and by the oracle",
                "CODATA constants from scipy.constants (the code's 2018 values differ by < 1e-8, far below the bremsstrahlung tolerance)",
                "guards are read term-wise where the documented expression is a sum: a donor / ion / hydrogen term vanishes when its own "
@@ -53,19 +56,23 @@ TOLERANCES = {
                            "integrand analytic over the bin the order-to-order differences fall faster than geometrically with ratio <= 1/2, so the true "
                            "error is <= 1e-5; x3 safety + 1e-8 (scipy quad epsrel, its own estimate is asserted <= 1e-6) + 5e-7 (CODATA vintages 1e-8 x exponent hc/(e Te lambda) <= 41 in the generated domain) "
                            "< 1e-4. Bin widths are generated so that the integrand varies by at most e^20 over one bin (order 50 is ample); the Maxwellian table "
-                           "is a C1 piecewise cubic in log u with knots 0.2 dex apart, its curvature jumps contribute < 1e-7. Measured worst model-vs-quad difference over 1000 generated cases: 1.1e-6",
+                           "is a C1 piecewise cubic in log u with knots 0.2 dex apart, its curvature jumps contribute < 1e-7; a bin that contains the table's seam u = u_min = 1e-4 "
+                           "(3.5 % jump to the Born approximation at Te x lambda = 1.24e7 eV nm) has a discontinuous integrand and gets no verdict (label gaunt-seam-bin; measured model error there 2.4e-4). Measured worst model-vs-quad difference over 1000 generated cases: 1.1e-6",
+    "history independence (first point evaluated again at the end)": "bit equality: the same deterministic arithmetic on the same inputs",
     "bremsstrahlung linearity": "2e-4 of the largest bin involved (three independent quadratures)",
 }
 REQUIRED_LABELS = ["lines:exc", "lines:rec", "lines:tcx", "lines:guard:ne", "lines:guard:te", "lines:guard:target-n", "lines:guard:target-t",
                    "lines:tcx:bare-excluded", "lines:tcx:receiver-not-bare", "lines:linearity", "trp:hyd-neutral", "trp:hyd-ion", "trp:guard:ne",
                    "trp:linearity", "brems:neutral", "brems:nonpos-ion", "brems:gaunt:user-mock", "brems:gaunt:provider-maxwellian",
-                   "brems:gaunt:provider-mock", "brems:linearity"]
+                   "brems:gaunt:provider-mock", "brems:linearity",
+                   "lines:seq:absent-after-present", "lines:seq:present-after-absent", "trp:seq:absent-after-present",
+                   "trp:seq:present-after-absent", "brems:seq:absent-after-present", "brems:seq:present-after-absent",
+                   "lines:tcx:seq:donor:absent-after-present"]
 
 ELS = {"hydrogen": 1, "deuterium": 1, "tritium": 1, "helium": 2, "carbon": 6, "neon": 10}
 HYD = ("hydrogen", "deuterium", "tritium")
 FOUR_PI = 4.0 * math.pi
 SHAPES = ["default", "gaussian", "multiplet", "ztriplet", "pztriplet", "zmultiplet"]
-KNOWN_TCX = "C03-tcx-donor-guards"
 
 
 # ----------------------------------------------------------------------------------------------- strategies
@@ -107,6 +114,59 @@ def _common(draw):
             "ad": {"tag": draw(st.sampled_from(["A", "B"])), "seed": draw(st.integers(0, 2 ** 31 - 1))},
             "base": draw(st.sampled_from([0.0, 0.0, 0.5])),
             "lin": {"j": draw(st.integers(0, 11)), "k": draw(st.sampled_from([0.25, 0.5, 2.0, 3.0, 7.5]))}}
+
+
+def _fix_hyd(vals, species):
+    """n_hyd is documented as the *total* neutral hydrogen density: a negative isotope density next to a positive one makes
+    "total" and "term-wise guard" disagree -> outside the domain, the negative one is set to zero.  vals = [[n, t], ...]"""
+    hn = [i for i, s in enumerate(species) if s["el"] in HYD and s["q"] == 0]
+    if any(vals[i][0] > 0 for i in hn):
+        for i in hn:
+            if vals[i][0] < 0:
+                vals[i][0] = 0.0
+
+
+def _add_seq(draw, case, hyd=False):
+    """1-3 further evaluation points, each with its own electron and species values; in half of the cases one species is made
+    present at one point and absent (n <= 0) at the next, or the reverse."""
+    sp = case["species"]
+    seq = []
+    pts = [case["point"]]
+    for k in range(draw(st.integers(1, 3))):
+        p = [draw(st.floats(-2.0, 2.0)) for _ in range(3)]
+        if any(sum((a - b) ** 2 for a, b in zip(p, o)) < 1e-2 for o in pts):
+            p = [pts[0][0] + 3.0 * (k + 1), p[1], p[2]]          # keep the points distinct (>= 0.1 apart)
+        pts.append(p)
+        seq.append({"point": p, "ne": draw(_value(1e17, 1e21, "ppppzppppppnpppp")), "te": draw(_value(0.3, 1e4, "pppppnppppzppppp")),
+                    "sp": [[draw(_value(1e15, 1e21)), draw(_value(0.05, 2000.0))] for _ in sp]})
+    if draw(st.booleans()):
+        r = draw(st.integers(0, len(sp) - 1))
+        k = draw(st.integers(1, len(seq)))
+        gone = draw(st.sampled_from([0.0, -1e17]))
+        first_present = draw(st.booleans())
+        vals = [[sp[r]["n"], sp[r]["t"]]] + [v["sp"][r] for v in seq]
+        a, b = (k - 1, k) if first_present else (k, k - 1)
+        vals[a][0] = abs(vals[a][0]) or 1e18
+        vals[a][1] = abs(vals[a][1]) or 10.0
+        vals[b][0] = gone
+        sp[r]["n"], sp[r]["t"] = vals[0]
+        for v in (case, seq[k - 1]):
+            if v["ne"] <= 0:
+                v["ne"] = abs(v["ne"]) or 1e19
+            if v["te"] <= 0:
+                v["te"] = abs(v["te"]) or 10.0
+        if k >= 2:
+            for name, dflt in (("ne", 1e19), ("te", 10.0)):
+                if seq[k - 2][name] <= 0:
+                    seq[k - 2][name] = abs(seq[k - 2][name]) or dflt
+    if hyd:
+        v0 = [[s["n"], s["t"]] for s in sp]
+        _fix_hyd(v0, sp)
+        for s, v in zip(sp, v0):
+            s["n"] = v[0]
+        for stt in seq:
+            _fix_hyd(stt["sp"], sp)
+    case["seq"] = seq
 
 
 def _assemble(draw, required, optional, n_extra_max):
@@ -154,6 +214,7 @@ def strategy_lines(draw):
         den = 1 << (tot - 1).bit_length()
         num[-1] += den - tot          # dyadic ratios: they sum to exactly 1.0 as the constructor demands
         case["multiplet"] = {"offs": [draw(st.floats(-8e-3, 8e-3)) for _ in range(n)], "num": num, "den": den}
+    _add_seq(draw, case)
     return case
 
 
@@ -168,18 +229,12 @@ def strategy_trp(draw):
     keys = _assemble(draw, [(el, q), (el, q + 1)], optional, 2)
     sure = draw(st.booleans())
     species = [draw(_spec(e, c, sure=(sure and e == el and c in (q, q + 1)))) for e, c in keys]
-    # n_hyd is documented as the *total* neutral hydrogen density: a negative isotope density next to a positive one makes
-    # "total" and "term-wise guard" disagree -> outside the domain, the negative one is set to zero
-    hn = [s for s in species if s["el"] in HYD and s["q"] == 0]
-    if any(s["n"] > 0 for s in hn):
-        for s in hn:
-            if s["n"] < 0:
-                s["n"] = 0.0
     zero = [k for k in ("line_radiated_power_rate", "continuum_radiated_power_rate", "cx_radiated_power_rate") if draw(st.sampled_from([False] * 4 + [True] + [False] * 5))]
     if zero:
         case["ad"]["zero"] = zero
     case.update({"kind": "trp", "trp": {"el": el, "q": q}, "species": species,
                  "win": {"min": draw(st.floats(1.0, 1000.0)), "width": draw(_pos(0.5, 2000.0)), "bins": draw(st.integers(1, 32))}})
+    _add_seq(draw, case, hyd=True)
     return case
 
 
@@ -192,13 +247,15 @@ def strategy_brems(draw):
     wmin = draw(st.floats(100.0, 1500.0))
     bins = draw(st.integers(1, 16))
     width = draw(_pos(5.0, 600.0))
-    if case["te"] > 0:
-        # keep the integrand's variation over one bin below e^20 (d ln f / d lambda <= hc / (e Te lambda_min^2))
-        width = min(width, bins * 20.0 * case["te"] * wmin * wmin / 1239.84)
     case.update({"kind": "brems", "species": [draw(_spec(e, c)) for e, c in keys],
                  "gaunt": draw(st.sampled_from(["provider-mock", "provider-maxwellian", "user-mock"])),
-                 "useed": draw(st.integers(0, 2 ** 31 - 1)),
-                 "win": {"min": wmin, "width": width, "bins": bins}})
+                 "useed": draw(st.integers(0, 2 ** 31 - 1))})
+    _add_seq(draw, case)
+    tes = [t for t in [case["te"]] + [v["te"] for v in case["seq"]] if t > 0]
+    if tes:
+        # keep the integrand's variation over one bin below e^20 (d ln f / d lambda <= hc / (e Te lambda_min^2)) at every point
+        width = min(width, bins * 20.0 * min(tes) * wmin * wmin / 1239.84)
+    case["win"] = {"min": wmin, "width": width, "bins": bins}
     case["ad"]["gaunt"] = "maxwellian" if case["gaunt"] == "provider-maxwellian" else "mock"
     return case
 
@@ -208,26 +265,44 @@ class Built:
     pass
 
 
-def _prof(v, case, i):
+def at(case, k):
+    """The case as seen at its k-th evaluation point: same dict layout with scalar ne / te / n / t and 'point'."""
+    if k == 0:
+        return case
+    stt = case["seq"][k - 1]
+    return dict(case, point=stt["point"], ne=stt["ne"], te=stt["te"],
+                species=[dict(s, n=v[0], t=v[1]) for s, v in zip(case["species"], stt["sp"])])
+
+
+def states(case):
+    return [at(case, k) for k in range(1 + len(case.get("seq", [])))]
+
+
+def _prof(vals, sts, grad, i):
+    """Voronoi table around the evaluation points with a linear tilt: exactly vals[k] at point k."""
+    if len(sts) == 1 and not any(grad):
+        return float(vals[0])
+    return M.profile({"kind": "points", "pts": [c["point"] for c in sts], "vals": vals,
+                      "g": [grad[i % 3], grad[(i + 1) % 3], grad[(i + 2) % 3]]})
+
+
+def build(case, scale=None):
+    """Real Plasma + Species whose profiles take the case's values at every evaluation point;
+    scale = {species index: factor applied to that species' density everywhere}."""
+    scale = scale or {}
+    sts = states(case)
     g = case["grad"]
-    if not any(g):
-        return float(v)
-    return M.profile({"kind": "lin", "v": v, "p0": case["point"], "g": [g[i % 3], g[(i + 1) % 3], g[(i + 2) % 3]]})
-
-
-def build(case, override=None):
-    """Real Plasma + Species with the case's values at case['point']; override = {species index: density}."""
-    override = override or {}
     b = Built()
     plasma = Plasma()
     plasma.b_field = ConstVec3D(Vector3D(*case["B"]))
-    plasma.electron_distribution = Maxwellian(_prof(case["ne"], case, 1), _prof(case["te"], case, 2),
+    plasma.electron_distribution = Maxwellian(_prof([c["ne"] for c in sts], sts, g, 1), _prof([c["te"] for c in sts], sts, g, 2),
                                               ConstVec3D(Vector3D(0, 0, 0)), K.m_e)
     sp = []
     for i, s in enumerate(case["species"]):
         el = M.element(s["el"])
-        n = override.get(i, s["n"])
-        sp.append(Species(el, s["q"], Maxwellian(_prof(n, case, i), _prof(s["t"], case, i + 1),
+        f = scale.get(i, 1.0)
+        sp.append(Species(el, s["q"], Maxwellian(_prof([f * c["species"][i]["n"] for c in sts], sts, g, i),
+                                                 _prof([c["species"][i]["t"] for c in sts], sts, g, i + 1),
                                                  ConstVec3D(Vector3D(*s["v"])), el.atomic_weight * K.atomic_mass)))
     plasma.composition = sp
     b.plasma, b.species = plasma, sp
@@ -235,15 +310,16 @@ def build(case, override=None):
     d = case["dir"]
     nrm = math.sqrt(sum(x * x for x in d))
     d = [x / nrm for x in d] if nrm > 1e-3 else [0.6, 0.0, 0.8]
-    b.point, b.direction = Point3D(*case["point"]), Vector3D(*d)
+    b.direction = Vector3D(*d)
     return b
 
 
-def emit(b, model, wmin, wmax, bins, base=0.0):
+def emit(b, model, cs, wmin, wmax, bins, base=0.0):
+    """model.emission at the evaluation point of the state `cs`."""
     s = Spectrum(wmin, wmax, bins)
     if base:
         s.samples[:] = base
-    out = model.emission(b.point, b.direction, s)
+    out = model.emission(Point3D(*cs["point"]), b.direction, s)
     return np.array(out.samples)
 
 
@@ -252,6 +328,37 @@ def find(case, el, q):
         if s["el"] == el and s["q"] == q:
             return i
     return None
+
+
+def history(ctx, b, model, sts, first, wmin, wmax, bins):
+    """The first point again, after everything else: must reproduce the first evaluation bit for bit."""
+    with ctx.cut("emission"):
+        again = emit(b, model, sts[0], wmin, wmax, bins)
+    if not np.array_equal(again, first):
+        i = int(np.argmax(np.abs(again - first)))
+        ctx.fail("history", "the same model at the same point gave %r the first time and %r after %d other point(s) (bin %d): "
+                 "the emission depends on previously evaluated points" % (float(first[i]), float(again[i]), len(sts) - 1, i))
+
+
+def seq_labels(ctx, sts, idxs, use_t, prefix="seq", need=None):
+    """absent-after-present / present-after-absent for the involved species `idxs` between points with live electrons."""
+    def pres(c, i):
+        s = c["species"][i]
+        return s["n"] > 0 and (s["t"] > 0 or not use_t)
+    live = [c["ne"] > 0 and c["te"] > 0 and (need is None or need(c)) for c in sts]
+    aap = pap = False
+    for i in idxs:
+        for k in range(1, len(sts)):
+            if live[k] and live[k - 1]:
+                now, before = pres(sts[k], i), pres(sts[k - 1], i)
+                aap |= before and not now
+                pap |= now and not before
+    if aap:
+        ctx.label(prefix + ":absent-after-present")
+    if pap:
+        ctx.label(prefix + ":present-after-absent")
+    if prefix == "seq":
+        ctx.label("points:%d" % len(sts))
 
 
 # ----------------------------------------------------------------------------------------------- line models
@@ -306,23 +413,73 @@ def line_terms(case, dens=None):
     return terms, ti
 
 
+def _lines_point(cs, ctx, b, model, k, wmin, wmax, bins):
+    """One evaluation of the (shared) model at point k against the documented expression for that point.
+    Returns (samples, terms or None when the emission must be zero, non-trivial flag)."""
+    kind, ln, sp = cs["kind"], cs["line"], cs["species"]
+    d = (wmax - wmin) / bins
+    terms, ti = line_terms(cs)
+    R = math.fsum(terms.values())
+    tgt = sp[ti]
+    where = "point %d: " % k
+    with ctx.cut("emission"):
+        got = emit(b, model, cs, wmin, wmax, bins)
+    ctx.check(np.all(np.isfinite(got)), "finite", where + "non-finite samples")
+    ctx.check(np.all(got >= 0.0), "non-negative", lambda: where + "negative spectral radiance %r with non-negative coefficients" % float(got.min()))
+    if kind == "tcx" and any(i != ti and s["q"] < ELS[s["el"]] and (s["n"] < 0 or (s["t"] <= 0 and s["n"] != 0)) for i, s in enumerate(sp)):
+        ctx.label("tcx:donor-nonpos")
+
+    # ---- guards: exact zero
+    reason = None
+    if cs["ne"] <= 0:
+        reason = "ne"
+    elif cs["te"] <= 0:
+        reason = "te"
+    elif tgt["n"] <= 0:
+        reason = "target-n"
+    elif R == 0.0:
+        reason = "zero-coefficient" if cs["ad"].get("zero") else "no-donor"
+    elif tgt["t"] <= 0:
+        reason = "target-t"
+    if reason is not None:
+        ctx.label("guard:" + reason)
+        ctx.check(np.all(got == 0.0), "guard", lambda: where + "emission must be zero (%s) but max sample is %r" % (reason, float(np.abs(got).max())))
+        with ctx.cut("emission"):
+            gb = emit(b, model, cs, wmin, wmax, bins, base=0.5)
+        ctx.check(np.all(gb == 0.5), "guard", lambda: where + "pre-filled spectrum changed although emission must be zero (%s)" % reason)
+        return got, None, False
+
+    # ---- total on a window containing the whole line
+    ctx.close(float(got.sum() * d), R, "total", rtol=1e-9,
+              info="(point %d: %s %s%d+ %r, target n=%r, ne=%r te=%r; terms %r)" % (k, kind, ln["el"], ln["q"], ln["tr"], tgt["n"], cs["ne"], cs["te"], terms))
+    if cs["base"]:
+        base = cs["base"] * R / (wmax - wmin)
+        with ctx.cut("emission"):
+            gb = emit(b, model, cs, wmin, wmax, bins, base=base)
+        ctx.close(float((gb - base).sum() * d), R, "adds-to-existing", rtol=1e-9, atol=4e-16 * base * bins * d, info="(point %d)" % k)
+        ctx.label("baseline")
+
+    # ---- class labels and non-triviality
+    if kind == "tcx":
+        other_bare = any(i != ti and s["q"] >= ELS[s["el"]] and s["n"] > 0 for i, s in enumerate(sp))
+        rec_not_bare = ln["q"] + 1 < ELS[ln["el"]]
+        if other_bare:
+            ctx.label("tcx:bare-excluded")
+        if rec_not_bare:
+            ctx.label("tcx:receiver-not-bare")
+        ctx.label("tcx:donors:%d" % min(len(terms), 3))
+        return got, terms, other_bare or rec_not_bare
+    fam = HYD if ln["el"] in HYD else (ln["el"],)
+    confusable = any(i != ti and s["el"] in fam and s["n"] > 0 for i, s in enumerate(sp))
+    if confusable:
+        ctx.label("confusable-present")
+    return got, terms, confusable
+
+
 def run_lines(case, ctx):
     kind, ln = case["kind"], case["line"]
     ctx.label(kind, "shape:" + case["shape"])
-    if kind == "tcx":
-        # known finding: donors with negative density / non-positive temperature are not guarded
-        ti0 = find(case, ln["el"], ln["q"] + 1)
-        bad = [i for i, s in enumerate(case["species"]) if i != ti0 and s["q"] < ELS[s["el"]] and (s["n"] < 0 or (s["t"] <= 0 and s["n"] != 0))]
-        if bad:
-            if is_open(KNOWN_TCX) and not case.get("probe_known"):
-                case = dict(case, species=[dict(s) for s in case["species"]])
-                for i in bad:
-                    case["species"][i]["n"] = abs(case["species"][i]["n"])
-                    case["species"][i]["t"] = abs(case["species"][i]["t"]) or 1.0
-                ctx.label("excluded_known:tcx-donor-guards")
-            else:
-                ctx.label("tcx:donor-nonpos")
-    sp = case["species"]
+    sts = states(case)
     with ctx.cut("construct"):
         b = build(case)
         model = line_model(case, b)
@@ -330,80 +487,40 @@ def run_lines(case, ctx):
     w = case["win"]
     wmin, wmax, bins = wl * (1 - w["lo"]), wl * (1 + w["hi"]), w["bins"]
     d = (wmax - wmin) / bins
-    terms, ti = line_terms(case)
-    R = math.fsum(terms.values())
-    tgt = sp[ti]
-    with ctx.cut("emission"):
-        got = emit(b, model, wmin, wmax, bins)
-    ctx.check(np.all(np.isfinite(got)), "finite", "non-finite samples")
-    ctx.check(np.all(got >= 0.0), "non-negative", lambda: "negative spectral radiance %r with non-negative coefficients" % float(got.min()))
 
-    # ---- guards: exact zero
-    reason = None
-    if case["ne"] <= 0:
-        reason = "ne"
-    elif case["te"] <= 0:
-        reason = "te"
-    elif tgt["n"] <= 0:
-        reason = "target-n"
-    elif R == 0.0:
-        reason = "zero-coefficient" if case["ad"].get("zero") else "no-donor"
-    elif tgt["t"] <= 0:
-        reason = "target-t"
-    if reason is not None:
-        ctx.label("guard:" + reason)
-        ctx.check(np.all(got == 0.0), "guard", lambda: "emission must be zero (%s) but max sample is %r" % (reason, float(np.abs(got).max())))
-        with ctx.cut("emission"):
-            gb = emit(b, model, wmin, wmax, bins, base=0.5)
-        ctx.check(np.all(gb == 0.5), "guard", lambda: "pre-filled spectrum changed although emission must be zero (%s)" % reason)
+    # ---- the same model instance at every point in turn, then the first point again
+    res = [_lines_point(cs, ctx, b, model, k, wmin, wmax, bins) for k, cs in enumerate(sts)]
+    history(ctx, b, model, sts, res[0][0], wmin, wmax, bins)
+    ti = find(case, ln["el"], ln["q"] if kind == "exc" else ln["q"] + 1)
+    donors = [i for i, s in enumerate(case["species"]) if i != ti and s["q"] < ELS[s["el"]]] if kind == "tcx" else []
+    seq_labels(ctx, sts, [ti] + donors, True)
+    if donors:
+        seq_labels(ctx, sts, donors, True, prefix="tcx:seq:donor",
+                   need=lambda c: c["species"][ti]["n"] > 0 and c["species"][ti]["t"] > 0)
+    ctx.nt(any(r[2] for r in res))
+
+    # ---- linearity in one involved density at the first emitting point: E(k n_j) = E(0) + k (E(n_j) - E(0)), bin by bin
+    live = [k for k, r in enumerate(res) if r[1] is not None]
+    if not live:
         return
-
-    # ---- total on a window containing the whole line
-    tot = float(got.sum() * d)
-    ctx.close(tot, R, "total", rtol=1e-9,
-              info="(%s %s%d+ %r, target n=%r, ne=%r te=%r; terms %r)" % (kind, ln["el"], ln["q"], ln["tr"], tgt["n"], case["ne"], case["te"], terms))
-    if case["base"]:
-        base = case["base"] * R / (wmax - wmin)
-        with ctx.cut("emission"):
-            gb = emit(b, model, wmin, wmax, bins, base=base)
-        ctx.close(float((gb - base).sum() * d), R, "adds-to-existing", rtol=1e-9, atol=4e-16 * base * bins * d)
-        ctx.label("baseline")
-
-    # ---- linearity in one involved density: E(k n_j) = E(0) + k (E(n_j) - E(0)), bin by bin
+    cs, (got, terms, _) = sts[live[0]], res[live[0]]
+    sp = cs["species"]
     involved = sorted(terms)
     if ti not in involved:
         involved.append(ti)
     j = involved[case["lin"]["j"] % len(involved)]
     k = case["lin"]["k"]
     with ctx.cut("emission"):
-        bk = build(case, {j: k * sp[j]["n"]})
-        gk = emit(bk, line_model(case, bk), wmin, wmax, bins)
+        bk = build(case, {j: k})
+        gk = emit(bk, line_model(case, bk), cs, wmin, wmax, bins)
         b0 = build(case, {j: 0.0})
-        g0 = emit(b0, line_model(case, b0), wmin, wmax, bins)
+        g0 = emit(b0, line_model(case, b0), cs, wmin, wmax, bins)
     scale = max(float(got.max()), float(gk.max()))
     ctx.close(gk, g0 + k * (got - g0), "linearity", rtol=1e-9, scale=scale,
-              info="(density of species %d %s%d+ scaled by %r)" % (j, sp[j]["el"], sp[j]["q"], k))
-    tk, _ = line_terms(case, {j: k * sp[j]["n"]})
-    ctx.close(float(gk.sum() * d), math.fsum(tk.values()), "total", rtol=1e-9, info="(after scaling species %d by %r)" % (j, k))
+              info="(point %d, density of species %d %s%d+ scaled by %r)" % (live[0], j, sp[j]["el"], sp[j]["q"], k))
+    tk, _ = line_terms(cs, {j: k * sp[j]["n"]})
+    ctx.close(float(gk.sum() * d), math.fsum(tk.values()), "total", rtol=1e-9, info="(point %d after scaling species %d by %r)" % (live[0], j, k))
     ctx.label("linearity", "linearity:target" if j == ti else "linearity:donor")
-
-    # ---- class labels and non-triviality
-    z_el = ELS[ln["el"]]
-    if kind == "tcx":
-        other_bare = any(i != ti and s["q"] >= ELS[s["el"]] and s["n"] > 0 for i, s in enumerate(sp))
-        rec_not_bare = ln["q"] + 1 < z_el
-        if other_bare:
-            ctx.label("tcx:bare-excluded")
-        if rec_not_bare:
-            ctx.label("tcx:receiver-not-bare")
-        ctx.label("tcx:donors:%d" % min(len(terms), 3))
-        ctx.nt(other_bare or rec_not_bare)
-    else:
-        fam = HYD if ln["el"] in HYD else (ln["el"],)
-        confusable = any(i != ti and s["el"] in fam and s["n"] > 0 for i, s in enumerate(sp))
-        if confusable:
-            ctx.label("confusable-present")
-        ctx.nt(confusable)
 
 
 # ----------------------------------------------------------------------------------------------- total radiated power
@@ -430,65 +547,83 @@ def trp_terms(case, dens=None):
     return out
 
 
-def run_trp(case, ctx):
-    t, sp = case["trp"], case["species"]
-    with ctx.cut("construct"):
-        b = build(case)
-        model = TotalRadiatedPower(M.element(t["el"]), t["q"], plasma=b.plasma, atomic_data=b.ad)
-    w = case["win"]
-    wmin, wmax, bins = w["min"], w["min"] + w["width"], w["bins"]
-    terms = trp_terms(case)
+def _trp_point(cs, ctx, b, model, k, wmin, wmax, bins):
+    t, sp = cs["trp"], cs["species"]
+    terms = trp_terms(cs)
     P = math.fsum(terms.values())
     want = P / (FOUR_PI * (wmax - wmin))
+    where = "point %d: " % k
     with ctx.cut("emission"):
-        got = emit(b, model, wmin, wmax, bins)
-    ctx.check(np.all(np.isfinite(got)), "finite", "non-finite samples")
-    ctx.check(np.all(got >= 0.0), "non-negative", lambda: "negative spectral radiance %r" % float(got.min()))
-    if case["ne"] <= 0 or case["te"] <= 0 or P == 0.0:
-        ctx.label("guard:" + ("ne" if case["ne"] <= 0 else "te" if case["te"] <= 0 else "all-terms-zero"))
-        ctx.check(np.all(got == 0.0), "guard", lambda: "emission must be zero but max sample is %r" % float(np.abs(got).max()))
+        got = emit(b, model, cs, wmin, wmax, bins)
+    ctx.check(np.all(np.isfinite(got)), "finite", where + "non-finite samples")
+    ctx.check(np.all(got >= 0.0), "non-negative", lambda: where + "negative spectral radiance %r" % float(got.min()))
+    if cs["ne"] <= 0 or cs["te"] <= 0 or P == 0.0:
+        ctx.label("guard:" + ("ne" if cs["ne"] <= 0 else "te" if cs["te"] <= 0 else "all-terms-zero"))
+        ctx.check(np.all(got == 0.0), "guard", lambda: where + "emission must be zero but max sample is %r" % float(np.abs(got).max()))
         with ctx.cut("emission"):
-            gb = emit(b, model, wmin, wmax, bins, base=0.5)
-        ctx.check(np.all(gb == 0.5), "guard", "pre-filled spectrum changed although emission must be zero")
-        return
-    info = "(TRP %s%d+, terms %r, ne=%r te=%r)" % (t["el"], t["q"], terms, case["ne"], case["te"])
+            gb = emit(b, model, cs, wmin, wmax, bins, base=0.5)
+        ctx.check(np.all(gb == 0.5), "guard", where + "pre-filled spectrum changed although emission must be zero")
+        return got, None, False
+    info = "(point %d: TRP %s%d+, terms %r, ne=%r te=%r)" % (k, t["el"], t["q"], terms, cs["ne"], cs["te"])
     ctx.close(got, np.full(bins, want), "uniform-bins", rtol=1e-9, info=info)
     ctx.close(float(got.sum() * (wmax - wmin) / bins), P / FOUR_PI, "total", rtol=1e-9, info=info)
-    if case["base"]:
-        base = case["base"] * want
+    if cs["base"]:
+        base = cs["base"] * want
         with ctx.cut("emission"):
-            gb = emit(b, model, wmin, wmax, bins, base=base)
-        ctx.close(gb - base, np.full(bins, want), "adds-to-existing", rtol=1e-9, atol=4e-16 * base)
+            gb = emit(b, model, cs, wmin, wmax, bins, base=base)
+        ctx.close(gb - base, np.full(bins, want), "adds-to-existing", rtol=1e-9, atol=4e-16 * base, info="(point %d)" % k)
         ctx.label("baseline")
     for name in ("exc", "rec", "cx"):
         if name in terms:
             ctx.label("term:" + name)
-
-    # ---- linearity in one involved density
-    i0, i1 = find(case, t["el"], t["q"]), find(case, t["el"], t["q"] + 1)
-    involved = [i for i in [i0, i1] + [i for i, s in enumerate(sp) if s["el"] in HYD and s["q"] == 0] if sp[i]["n"] > 0]
-    involved = sorted(set(involved))
-    if involved:
-        j = involved[case["lin"]["j"] % len(involved)]
-        k = case["lin"]["k"]
-        with ctx.cut("emission"):
-            bk = build(case, {j: k * sp[j]["n"]})
-            gk = emit(bk, TotalRadiatedPower(M.element(t["el"]), t["q"], plasma=bk.plasma, atomic_data=bk.ad), wmin, wmax, bins)
-            b0 = build(case, {j: 0.0})
-            g0 = emit(b0, TotalRadiatedPower(M.element(t["el"]), t["q"], plasma=b0.plasma, atomic_data=b0.ad), wmin, wmax, bins)
-        ctx.close(gk, g0 + k * (got - g0), "linearity", rtol=1e-9, scale=max(float(got.max()), float(gk.max())),
-                  info="(density of species %d %s%d+ scaled by %r)" % (j, sp[j]["el"], sp[j]["q"], k))
-        pk = math.fsum(trp_terms(case, {j: k * sp[j]["n"]}).values())
-        ctx.close(gk, np.full(bins, pk / (FOUR_PI * (wmax - wmin))), "uniform-bins", rtol=1e-9, info="(after scaling species %d by %r)" % (j, k))
-        ctx.label("linearity")
-
     hyd_neutral = any(s["el"] in HYD and s["q"] == 0 and s["n"] > 0 for s in sp)
     hyd_ion = any(s["el"] in HYD and s["q"] == 1 and s["n"] > 0 and not (s["el"] == t["el"]) for s in sp)
     if hyd_neutral:
         ctx.label("hyd-neutral")
     if hyd_ion:
         ctx.label("hyd-ion")
-    ctx.nt(hyd_neutral or hyd_ion)
+    return got, terms, hyd_neutral or hyd_ion
+
+
+def run_trp(case, ctx):
+    t = case["trp"]
+    sts = states(case)
+
+    def make(b):
+        return TotalRadiatedPower(M.element(t["el"]), t["q"], plasma=b.plasma, atomic_data=b.ad)
+    with ctx.cut("construct"):
+        b = build(case)
+        model = make(b)
+    w = case["win"]
+    wmin, wmax, bins = w["min"], w["min"] + w["width"], w["bins"]
+    res = [_trp_point(cs, ctx, b, model, k, wmin, wmax, bins) for k, cs in enumerate(sts)]
+    history(ctx, b, model, sts, res[0][0], wmin, wmax, bins)
+    i0, i1 = find(case, t["el"], t["q"]), find(case, t["el"], t["q"] + 1)
+    hyd = [i for i, s in enumerate(case["species"]) if s["el"] in HYD and s["q"] == 0]
+    seq_labels(ctx, sts, sorted(set([i0, i1] + hyd)), False)
+    ctx.nt(any(r[2] for r in res))
+
+    # ---- linearity in one involved density at the first emitting point
+    live = [k for k, r in enumerate(res) if r[1] is not None]
+    if not live:
+        return
+    cs, got = sts[live[0]], res[live[0]][0]
+    sp = cs["species"]
+    involved = sorted(set(i for i in [i0, i1] + hyd if sp[i]["n"] > 0))
+    if involved:
+        j = involved[case["lin"]["j"] % len(involved)]
+        k = case["lin"]["k"]
+        with ctx.cut("emission"):
+            bk = build(case, {j: k})
+            gk = emit(bk, make(bk), cs, wmin, wmax, bins)
+            b0 = build(case, {j: 0.0})
+            g0 = emit(b0, make(b0), cs, wmin, wmax, bins)
+        ctx.close(gk, g0 + k * (got - g0), "linearity", rtol=1e-9, scale=max(float(got.max()), float(gk.max())),
+                  info="(point %d, density of species %d %s%d+ scaled by %r)" % (live[0], j, sp[j]["el"], sp[j]["q"], k))
+        pk = math.fsum(trp_terms(cs, {j: k * sp[j]["n"]}).values())
+        ctx.close(gk, np.full(bins, pk / (FOUR_PI * (wmax - wmin))), "uniform-bins", rtol=1e-9,
+                  info="(point %d after scaling species %d by %r)" % (live[0], j, k))
+        ctx.label("linearity")
 
 
 # ----------------------------------------------------------------------------------------------- bremsstrahlung
@@ -525,21 +660,83 @@ def brems_density(case, g, dens=None):
 def brems_bins(case, g, wmin, wmax, bins, dens=None):
     eps, ions = brems_density(case, g, dens)
     d = (wmax - wmin) / bins
-    out, worst = np.zeros(bins), 0.0
+    out, rel = np.zeros(bins), np.zeros(bins)
     if not ions:
-        return out, worst
+        return out, rel
     for i in range(bins):
         val, err = quad(eps, wmin + i * d, wmin + (i + 1) * d, epsabs=0.0, epsrel=1e-9, limit=200)
         out[i] = val / d
         if val > 0:
-            worst = max(worst, err / val)
-    return out, worst
+            rel[i] = err / val
+    return out, rel
+
+
+def seam_mask(cs, wmin, wmax, bins):
+    """True for bins the verdict covers.  The real Maxwellian table switches to the Born approximation at u = hc/(e Te lambda) = u_min
+    (and to 1 at u_max) with a JUMP of a few per cent; a bin containing such a seam has a discontinuous integrand, for which the
+    model's fixed-node quadrature has no 1e-5 bound (measured 2.4e-4): no verdict for that bin."""
+    mask = np.ones(bins, dtype=bool)
+    if cs["gaunt"] != "provider-maxwellian" or cs["te"] <= 0:
+        return mask
+    d = (wmax - wmin) / bins
+    for u in M.maxwellian_gaunt().u_range:
+        seam = EXP_FACTOR / (cs["te"] * u)
+        for i in range(bins):
+            if wmin + i * d - 1e-6 * seam <= seam <= wmin + (i + 1) * d + 1e-6 * seam:
+                mask[i] = False
+    return mask
+
+
+def _brems_point(cs, ctx, b, model, g, k, wmin, wmax, bins):
+    sp = cs["species"]
+    where = "point %d: " % k
+    with ctx.cut("emission"):
+        got = emit(b, model, cs, wmin, wmax, bins)
+    ctx.check(np.all(np.isfinite(got)), "finite", where + "non-finite samples")
+    ctx.check(np.all(got >= 0.0), "non-negative", lambda: where + "negative spectral radiance %r" % float(got.min()))
+    charged_pos = [s for s in sp if s["q"] > 0 and s["n"] > 0]
+    if cs["ne"] <= 0 or cs["te"] <= 0 or not charged_pos:
+        ctx.label("guard:" + ("ne" if cs["ne"] <= 0 else "te" if cs["te"] <= 0 else "no-ions"))
+        ctx.check(np.all(got == 0.0), "guard", lambda: where + "emission must be zero but max sample is %r" % float(np.abs(got).max()))
+        with ctx.cut("emission"):
+            gb = emit(b, model, cs, wmin, wmax, bins, base=0.5)
+        ctx.check(np.all(gb == 0.5), "guard", where + "pre-filled spectrum changed although emission must be zero")
+        return got, False, False
+    want, rel = brems_bins(cs, g, wmin, wmax, bins)
+    mask = seam_mask(cs, wmin, wmax, bins)
+    if not mask.all():
+        ctx.label("gaunt-seam-bin")
+    if np.any(rel[mask] > 1e-6):
+        ctx.label("oracle-imprecise")          # scipy could not certify its own integral: no verdict at this point
+        return got, False, False
+    tol = 1e-4 * np.abs(want) + 1e-290
+    err = np.where(mask, np.abs(got - want), 0.0)
+    if np.any(err > tol):
+        i = int(np.argmax(err / tol))
+        ctx.fail("bins", "point %d, bin %d of %d [%.6g, %.6g] nm: got %r, Hutchinson 5.3.40 bin average %r (rel. err %.3g); ne=%r te=%r gaunt=%s ions=%r"
+                 % (k, i, bins, wmin + i * (wmax - wmin) / bins, wmin + (i + 1) * (wmax - wmin) / bins, float(got[i]), float(want[i]),
+                    float(err[i] / max(abs(want[i]), 1e-300)), cs["ne"], cs["te"], cs["gaunt"], [(s["el"], s["q"], s["n"]) for s in sp]))
+    top = float(want.max())
+    if cs["base"] and top > 0:
+        base = cs["base"] * top
+        with ctx.cut("emission"):
+            gb = emit(b, model, cs, wmin, wmax, bins, base=base)
+        ctx.close(gb - base, got, "adds-to-existing", rtol=0, atol=4e-16 * (base + top), info="(point %d)" % k)
+        ctx.label("baseline")
+    neutral = any(s["q"] == 0 and s["n"] > 0 for s in sp)
+    nonpos = any(s["q"] > 0 and s["n"] <= 0 for s in sp)
+    if neutral:
+        ctx.label("neutral")
+    if nonpos:
+        ctx.label("nonpos-ion")
+    ctx.label("ions:%d" % min(len(charged_pos), 3))
+    return got, True, top > 0 and (neutral or nonpos)
 
 
 def run_brems(case, ctx):
-    sp = case["species"]
     ctx.label("gaunt:" + case["gaunt"])
     user, g = brems_gaunt(case)
+    sts = states(case)
 
     def make(b):
         return Bremsstrahlung(plasma=b.plasma, atomic_data=b.ad, gaunt_factor=user) if user is not None else \
@@ -549,66 +746,36 @@ def run_brems(case, ctx):
         model = make(b)
     w = case["win"]
     wmin, wmax, bins = w["min"], w["min"] + w["width"], w["bins"]
-    with ctx.cut("emission"):
-        got = emit(b, model, wmin, wmax, bins)
-    ctx.check(np.all(np.isfinite(got)), "finite", "non-finite samples")
-    ctx.check(np.all(got >= 0.0), "non-negative", lambda: "negative spectral radiance %r" % float(got.min()))
-    charged_pos = [s for s in sp if s["q"] > 0 and s["n"] > 0]
-    if case["ne"] <= 0 or case["te"] <= 0 or not charged_pos:
-        ctx.label("guard:" + ("ne" if case["ne"] <= 0 else "te" if case["te"] <= 0 else "no-ions"))
-        ctx.check(np.all(got == 0.0), "guard", lambda: "emission must be zero but max sample is %r" % float(np.abs(got).max()))
-        with ctx.cut("emission"):
-            gb = emit(b, model, wmin, wmax, bins, base=0.5)
-        ctx.check(np.all(gb == 0.5), "guard", "pre-filled spectrum changed although emission must be zero")
-        return
-    want, worst = brems_bins(case, g, wmin, wmax, bins)
-    if worst > 1e-6:
-        ctx.label("oracle-imprecise")          # scipy could not certify its own integral: no verdict
-        return
-    tol = 1e-4 * np.abs(want) + 1e-290
-    err = np.abs(got - want)
-    if np.any(err > tol):
-        i = int(np.argmax(err / tol))
-        ctx.fail("bins", "bin %d of %d [%.6g, %.6g] nm: got %r, Hutchinson 5.3.40 bin average %r (rel. err %.3g); ne=%r te=%r gaunt=%s ions=%r"
-                 % (i, bins, wmin + i * (wmax - wmin) / bins, wmin + (i + 1) * (wmax - wmin) / bins, float(got[i]), float(want[i]),
-                    float(err[i] / max(abs(want[i]), 1e-300)), case["ne"], case["te"], case["gaunt"], [(s["el"], s["q"], s["n"]) for s in sp]))
-    top = float(want.max())
-    if case["base"] and top > 0:
-        base = case["base"] * top
-        with ctx.cut("emission"):
-            gb = emit(b, model, wmin, wmax, bins, base=base)
-        ctx.close(gb - base, got, "adds-to-existing", rtol=0, atol=4e-16 * (base + top))
-        ctx.label("baseline")
+    res = [_brems_point(cs, ctx, b, model, g, k, wmin, wmax, bins) for k, cs in enumerate(sts)]
+    history(ctx, b, model, sts, res[0][0], wmin, wmax, bins)
+    seq_labels(ctx, sts, [i for i, s in enumerate(case["species"]) if s["q"] > 0], False)
+    ctx.nt(any(r[2] for r in res))
 
-    # ---- linearity in one ion density, bin by bin
+    # ---- linearity in one ion density at the first emitting point, bin by bin
+    live = [k for k, r in enumerate(res) if r[1]]
+    if not live:
+        return
+    cs, got = sts[live[0]], res[live[0]][0]
+    sp = cs["species"]
     involved = [i for i, s in enumerate(sp) if s["q"] > 0 and s["n"] > 0]
     j = involved[case["lin"]["j"] % len(involved)]
     k = case["lin"]["k"]
     with ctx.cut("emission"):
-        bk = build(case, {j: k * sp[j]["n"]})
-        gk = emit(bk, make(bk), wmin, wmax, bins)
+        bk = build(case, {j: k})
+        gk = emit(bk, make(bk), cs, wmin, wmax, bins)
         b0 = build(case, {j: 0.0})
-        g0 = emit(b0, make(b0), wmin, wmax, bins)
+        g0 = emit(b0, make(b0), cs, wmin, wmax, bins)
     scale = np.maximum(np.maximum(got, gk), g0)
-    lerr = np.abs(gk - (g0 + k * (got - g0)))
+    lerr = np.where(seam_mask(cs, wmin, wmax, bins), np.abs(gk - (g0 + k * (got - g0))), 0.0)
     if np.any(lerr > 2e-4 * scale + 1e-290):
         i = int(np.argmax(lerr - 2e-4 * scale))
-        ctx.fail("linearity", "bin %d: E(k n)=%r but E(0) + k (E(n) - E(0)) = %r (k=%r, species %d %s%d+)"
-                 % (i, float(gk[i]), float(g0[i] + k * (got[i] - g0[i])), k, j, sp[j]["el"], sp[j]["q"]))
+        ctx.fail("linearity", "point %d, bin %d: E(k n)=%r but E(0) + k (E(n) - E(0)) = %r (k=%r, species %d %s%d+)"
+                 % (live[0], i, float(gk[i]), float(g0[i] + k * (got[i] - g0[i])), k, j, sp[j]["el"], sp[j]["q"]))
     ctx.label("linearity")
-
-    neutral = any(s["q"] == 0 and s["n"] > 0 for s in sp)
-    nonpos = any(s["q"] > 0 and s["n"] <= 0 for s in sp)
-    if neutral:
-        ctx.label("neutral")
-    if nonpos:
-        ctx.label("nonpos-ion")
-    ctx.label("ions:%d" % min(len(charged_pos), 3))
-    ctx.nt(top > 0 and (neutral or nonpos))
 
 
 SUBCHECKS = {
-    "lines": Given(strategy_lines, run_lines, quick=2400, thorough=120000),
-    "trp": Given(strategy_trp, run_trp, quick=800, thorough=40000),
-    "brems": Given(strategy_brems, run_brems, quick=600, thorough=30000),
+    "lines": Given(strategy_lines, run_lines, quick=2400, thorough=100000),
+    "trp": Given(strategy_trp, run_trp, quick=800, thorough=30000),
+    "brems": Given(strategy_brems, run_brems, quick=600, thorough=20000),
 }
